@@ -10,11 +10,16 @@ Open Scope Z_scope.
 Theorem C11_subsequence : forall A max (l : list (Z * A)), Sublist (klm_sanitize max l) l.
 Proof. exact klm_sublist. Qed.
 
-(* POD: the result is a sublist of a rotation of an order-preserving sublist of the file's records *)
+(* POD: the result is a rotation (or a tail) of an order-preserving sublist of the file's records ... *)
 Theorem C11_pod_rotation : forall A max (l : list (Z * A)) out, pod_sanitize max l = Some out ->
-  Sublist (base_sanitize max l) l /\
-  exists k, Sublist out (skipn k (base_sanitize max l) ++ firstn k (base_sanitize max l)).
-Proof. intros. split; [apply base_sublist|apply pod_rotation; assumption]. Qed.
+  Sublist (pod_base A max l) l /\
+  exists k, out = skipn k (pod_base A max l) ++ firstn k (pod_base A max l) \/ out = skipn k (pod_base A max l).
+Proof. intros. split; [apply pod_base_sublist|apply pod_rotation; assumption]. Qed.
+
+(* ... in which the lowest number comes first *)
+Theorem C11_pod_lowest_first : forall A max (l : list (Z * A)) out, pod_sanitize max l = Some out ->
+  exists r rest, out = r :: rest /\ forall x, In x out -> fst r <= fst x.
+Proof. exact pod_lowest_first. Qed.
 
 (* all surviving numbers are in range: KLM 0..max-1, POD 1..max-1 *)
 Theorem C11_range_klm : forall A max (l : list (Z * A)) r, In r (klm_sanitize max l) -> 0 <= fst r < max.
@@ -37,13 +42,6 @@ Theorem C11_exact_500 : forall A max first (l : list (Z * A)),
   klm_sanitize max l = filter_by (keep500_from first ns) l.
 Proof. exact base_exact_500. Qed.
 
-(* POD: if the first surviving record has the lowest number, the POD step only removes number-0 records *)
-Theorem C11_pod_min_first : forall A max (l : list (Z * A)) first b,
-  base_sanitize max l = first :: b ->
-  fst first = list_min (map Z.abs (map fst (first :: b))) ->
-  pod_sanitize max l = Some (filter (fun r => negb (fst r =? 0)) (first :: b)).
-Proof. exact pod_min_first. Qed.
-
 (* why the minority hypothesis is there: with two of three entries corrupted the intact one is removed *)
 Theorem C11_exact_500_minority_needed :
   map fst (klm_sanitize 15000 [(1, 0%nat); (700, 1%nat); (701, 2%nat)]) = [700; 701].
@@ -63,6 +61,6 @@ Print Assumptions C11_range_klm.
 Print Assumptions C11_range_pod.
 Print Assumptions C11_gapfree_kept.
 Print Assumptions C11_exact_500.
-Print Assumptions C11_pod_min_first.
+Print Assumptions C11_pod_lowest_first.
 Print Assumptions C11_exact_500_minority_needed.
 Print Assumptions C11_example.
